@@ -448,6 +448,12 @@ func main() {
 	core.ParseFlags()
 	node.Quiet()
 	node.DropEngineGoroutines() // see mc/node/tasks.go
+	if os.Getenv("C01_LOCAL_COUNT") != "" {
+		for _, th := range []bool{false, true} {
+			fmt.Printf("thorough=%v histories=%d node lives per history=%d\n", th, len(lHistories(th)), len(lPaths(th)))
+		}
+		return
+	}
 	if os.Getenv("C01_LOCAL_PROBE") != "" {
 		lProbe()
 		return
